@@ -99,29 +99,45 @@ def sanity():
     return None
 
 
-def perturb(byte):
-    """fill freed heap cells (numpy's small-block cache and malloc free lists) with a byte pattern"""
-    junk = [np.full(sz, byte, np.uint8) for sz in (16, 64, 200, 1000, 5000, 40000, 200000) for _ in range(3)]
+def perturb(byte, spec=None):
+    """fill freed heap cells (numpy's small-block cache and malloc free lists) with a byte pattern. numpy caches freed
+    data buffers below 1024 bytes per EXACT byte size, so the sizes the call is likely to request (element count of
+    each array argument times every item size) are dirtied specifically."""
+    sizes = {16, 64, 200, 1000, 5000, 40000, 200000}
+    if spec is not None:
+        try:
+            for a in list(spec.get('args', [])) + list(spec.get('kw', {}).values()):
+                if isinstance(a, dict) and 'a' in a:
+                    n = 1
+                    for d in a['a'].get('shape', []):
+                        n *= int(d)
+                    for item in (1, 2, 4, 8, 16):
+                        for k in (1, 2, 3):
+                            if 0 < n * item * k <= 1 << 22:
+                                sizes.add(n * item * k)
+        except Exception:
+            pass
+    junk = [np.full(sz, byte, np.uint8) for sz in sorted(sizes) for _ in range(8)]
     del junk
 
 
-def run_once(spec):
+def run_once(spec, dirty=None):
     fn = resolve(spec['fn'])
     args = [build(a) for a in spec.get('args', [])]
     kw = {k: build(v) for k, v in spec.get('kw', {}).items()}
+    if dirty is not None:
+        # AFTER the arguments exist (building them recycles the cached blocks) and right before the call
+        perturb(dirty, spec)
     r = fn(*args, **kw)
     return r, None
 
 
 def handle(spec):
     try:
-        if spec.get('twice'):
-            perturb(0x00)
-        r, mod = run_once(spec)
+        r, mod = run_once(spec, 0x00 if spec.get('twice') else None)
         out = dict(st='ok', digest=digest(r), summary=summary(r))
         if spec.get('twice'):
-            perturb(0xFF)
-            r2, _ = run_once(spec)
+            r2, _ = run_once(spec, 0xFF)
             out['digest2'] = digest(r2)
     except BaseException as e:  # noqa
         if isinstance(e, (KeyboardInterrupt, SystemExit)):
